@@ -90,6 +90,41 @@ CASES = [
     ("C12", "benign", "split test written with isinstance-free membership swapped", "function.py", "            if keyword in kwargs and type(kwargs[keyword]) in typ:\n                hass_args[keyword] = kwargs.pop(keyword)\n            elif default:\n                hass_args[keyword] = default\n\n        return await cls.hass_services_async_call(domain, name, kwargs, **hass_args)",
      "            if type(kwargs.get(keyword)) in typ and keyword in kwargs:\n                hass_args[keyword] = kwargs.pop(keyword)\n            elif default:\n                hass_args[keyword] = default\n\n        return await cls.hass_services_async_call(domain, name, kwargs, **hass_args)"),
     ("C20", "benign", "comparison sides swapped", "requirements.py", "                elif Version(current_pinned_version) < Version(new_version):", "                elif Version(new_version) > Version(current_pinned_version):"),
+    # ---- round 4: breaks of the new rules -----------------------------------------------------------------------------
+    ("C01", "break", "iteration errors converted to TypeError again", "eval.py", "            except TypeError:\n                raise TypeError(\"cannot unpack non-iterable object\")  # pylint: disable=raise-missing-from\n            # an exception raised while iterating belongs to the script and propagates unchanged\n            vals = [*val_iter]",
+     "                vals = [*val_iter]\n            except Exception:\n                raise TypeError(\"cannot unpack non-iterable object\")  # pylint: disable=raise-missing-from"),
+    ("C03", "break", "declarations no longer static", "eval.py", "        self.global_names = set(global_names)\n        self.nonlocal_names = set(nonlocal_names)\n", ""),
+    ("C05", "break", "start-up check subject to state_hold_false again", "decorators/state.py", "await self._check_new_state(trig_ok, startup=True)", "await self._check_new_state(trig_ok)"),
+    ("C06", "break", "start-up time reset inside the wait loop", "trigger.py", "            startup_time = None\n            while True:\n                ret = None\n", "            while True:\n                startup_time = None\n                ret = None\n"),
+    ("C07", "break", "trigger_time taken from any trigger type", "decorators/timing.py", "if data.func_args.get(\"trigger_type\") == \"time\" and isinstance(", "if isinstance("),
+    ("C08", "break", "filter evaluations no longer serialised", "decorators/base.py", "            async with self._eval_lock:\n                return await self._ast_expression.eval(state_vars)", "            return await self._ast_expression.eval(state_vars)"),
+    ("C09", "break", "watch set aliased", "trigger.py", "self.state_trig_ident = set(self.state_user_watch)", "self.state_trig_ident = self.state_user_watch"),
+    ("C12", "break", "registration keyed by spelling", "function.py", "        # Home Assistant lower-cases service names: every spelling is the same service\n        key = f\"{domain}.{service}\".lower()", "        key = f\"{domain}.{service}\""),
+    ("C13", "break", "context and name joined by a dot", "function.py", "return f\"{ctx.get_global_ctx_name()}/{name}\"", "return f\"{ctx.get_global_ctx_name()}.{name}\""),
+    ("C14", "break", "service run started without its evaluator", "decorators/service.py", "func_args), ast_ctx=ast_ctx)", "func_args))"),
+    ("C15", "break", "timeout=0 treated as no timeout", "decorator.py", "if (timeout := kwargs.get(\"timeout\")) is not None:", "if timeout := kwargs.get(\"timeout\"):"),
+    ("C16", "break", "attribute with a false value cannot be deleted", "state.py", "            if parts[2] not in new_attr:", "            if not new_attr.get(parts[2]):"),
+    ("C17", "break", "expression scope starts empty", "eval.py", "self.local_sym_table = self.local_sym_table_base.copy()", "self.local_sym_table = {}"),
+    ("C19", "break", "broadcast walks the live subscriber set", "jupyter_kernel.py", "for this_stream in list(stream) if isinstance(stream, set) else [stream]:", "for this_stream in stream if isinstance(stream, set) else [stream]:"),
+    ("C20", "break", "package name not stripped", "requirements.py", "pkg_name = parts[0].strip()", "pkg_name = parts[0]"),
+    ("C11", "break", "done callback keeps the file-level evaluator", "trigger.py", "Function.task_add_done_callback(task, None, callback, *args, **kwargs)", "Function.task_add_done_callback(task, callback.get_ast_ctx() if type(callback) is EvalFuncVar else None, callback, *args, **kwargs)"),
+    ("C10", "break", "flag comparison forgets to refresh", "__init__.py", "        old_entry = hass.data[DOMAIN][CONFIG_ENTRY_OLD]\n        hass.data[DOMAIN][CONFIG_ENTRY_OLD] = config_save\n", "        old_entry = hass.data[DOMAIN][CONFIG_ENTRY_OLD]\n"),
+    ("C18", "break", "frame position read from the frame object", "eval.py", "            target = tb.tb_lasti // 2", "            target = frame.f_lasti // 2"),
+    ("C04", "break", "method names compared as attributes again", "trigger.py", "            if callable(new_attr) or callable(old_attr):", "            if False:"),
+    ("C02", "break", "handler name deleted unconditionally", "eval.py", "                                self.sym_table.pop(handler.name, None)", "                                del self.sym_table[handler.name]"),
+    # ---- round 4: behaviour-preserving twins ----------------------------------------------------------------------------
+    ("C01", "benign", "non-iterable error raised with from None", "eval.py", "                raise TypeError(\"cannot unpack non-iterable object\")  # pylint: disable=raise-missing-from\n            # an exception raised while iterating", "                raise TypeError(\"cannot unpack non-iterable object\") from None\n            # an exception raised while iterating"),
+    ("C08", "benign", "lock taken through a local alias", "decorators/base.py", "            async with self._eval_lock:\n                return await self._ast_expression.eval(state_vars)", "            lock = self._eval_lock\n            async with lock:\n                return await self._ast_expression.eval(state_vars)"),
+    ("C12", "benign", "names lower-cased one by one", "function.py", "        # Home Assistant lower-cases service names: every spelling is the same service\n        key = f\"{domain}.{service}\".lower()", "        key = f\"{domain.lower()}.{service.lower()}\""),
+    ("C13", "benign", "another separator that no context name contains", "function.py", "return f\"{ctx.get_global_ctx_name()}/{name}\"", "return f\"{ctx.get_global_ctx_name()}|{name}\""),
+    ("C14", "benign", "evaluator registered after the task is created", "decorators/service.py", "        task = Function.create_task(do_service_call(self.dm.eval_func, ast_ctx, func_args), ast_ctx=ast_ctx)\n", "        task = Function.create_task(do_service_call(self.dm.eval_func, ast_ctx, func_args))\n        Function.task_done_callback_ctx(task, ast_ctx)\n"),
+    ("C15", "benign", "timeout test without the walrus", "decorator.py", "        if (timeout := kwargs.get(\"timeout\")) is not None:", "        timeout = kwargs.get(\"timeout\")\n        if timeout is not None:"),
+    ("C17", "benign", "base table copied with dict()", "eval.py", "self.local_sym_table = self.local_sym_table_base.copy()", "self.local_sym_table = dict(self.local_sym_table_base)"),
+    ("C19", "benign", "snapshot taken as a tuple", "jupyter_kernel.py", "for this_stream in list(stream) if isinstance(stream, set) else [stream]:", "for this_stream in tuple(stream) if isinstance(stream, set) else (stream,):"),
+    ("C09", "benign", "watch set copied through a list", "trigger.py", "self.state_trig_ident = set(self.state_user_watch)", "self.state_trig_ident = set(list(self.state_user_watch))"),
+    ("C07", "benign", "occurrence-time test with the type checked first", "decorators/timing.py", "            if data.func_args.get(\"trigger_type\") == \"time\" and isinstance(\n                data.func_args.get(\"trigger_time\"), dt.datetime\n            ):", "            if isinstance(data.func_args.get(\"trigger_time\"), dt.datetime) and data.func_args.get(\"trigger_type\") == \"time\":"),
+    ("C16", "benign", "absence test written with keys()", "state.py", "            if parts[2] not in new_attr:", "            if parts[2] not in new_attr.keys():"),
+    ("C20", "benign", "blank-stripping written with split/join", "requirements.py", "pkg_name = parts[0].strip()", "pkg_name = \"\".join(parts[0].split())"),
 ]
 
 
